@@ -106,6 +106,9 @@ def faults(r, nl):
     add("filter-list", "${x | h,,g}", "Syntax", py=True)
     add("attribute-expression", '<%include file="${1 +}"/>', "Either", py=True)
     add("call-expr", '<%call expr="f(,)">x</%call>', "Either", py=True)
+    # an attribute expression whose Python starts on a later line than its ${
+    add("attribute-expression-later-line", '<%include file="${' + nl + nl + '  1 +}"/>', "Either", off=2, col="unchecked", py=True)
+    add("def-attribute-expression-later-line", '<%def name="ae_()" cached="${' + nl + '  True +}">x</%def>', "Either", off=1, col="unchecked", py=True)
     add("unterminated-expression", "${ 'abc' + " + nl + "more text" + nl, "Syntax", where="any")
     add("unterminated-code-block", "<% x = 1" + nl + "more" + nl, "Syntax")
     add("unknown-tag", "<%nosuchtag>x</%nosuchtag>", "Compile")
